@@ -99,6 +99,7 @@ def step (st : St) (line : String) : St × String :=
     | _, _, _ => (st, "bad-op")
   | ["gen", _, _, _] => (st, "ok")
   | ["commit"] => (st, "ok " ++ dump st)
+  | "dry" :: _ => (st, "ok " ++ dump st)
   | ["restartapp"] => finish st (restart st.c)
   | ["upgrade"] => finish { st with nrec := 0 } (upgrade st.c)
   | "hook" :: n :: rest =>
